@@ -200,9 +200,19 @@ def verify_function(c: Contract, registry: Dict[str, Contract]) -> FunctionResul
     if res.status == "ok":
         t1 = time.time()
         exits = [ob for ob in res.obligations if ob.kind == "cover_exit"]
+        # Per-function solver budget: a change that makes many obligations hard must end in UNDECIDED within bounded time, not in
+        # hours.  Once the budget is used up, obligations that are not decided instantly are left `unknown` (never a violation).
+        budget = float(os.environ.get("PYVC_FUNC_BUDGET_S", "900"))
+        slow = 0
         for ob in res.obligations:
             if ob.kind != "cover_exit":
+                if time.time() - t1 > budget or slow >= 12:
+                    ob.result, ob.backend, ob.time = "unknown", "skipped (function budget exhausted)", 0.0
+                    continue
+                t_ob = time.time()
                 solve(ob)
+                if ob.result == "unknown" and time.time() - t_ob > 30:
+                    slow += 1
         # vacuity guard at function level: SOME normal exit must have a path condition that cannot be refuted
         # (an individual infeasible path is harmless; all of them being infeasible means the contract is vacuous)
         found = False
